@@ -44,7 +44,10 @@ def gen_program(r, workers, n, kind=None):
     kind = kind or r.choice(KINDS)
     L = [PRELUDE]
     exp = []
+    # (#%gc-collect) is the script-visible collection, but every call also grows the heap's slot vector, so it is
+    # used sparingly; (#%verif-full-gc) runs the same stop-the-world / mark / sweep without growing
     gc = r.choice(["(#%verif-full-gc)", "(#%verif-full-gc)", "(#%gc-collect)"])
+    every = 7 if gc == "(#%verif-full-gc)" else 19
     if kind in ("channels", "channels-via-map", "channels-via-apply"):
         L.append("(define ch (channels/new))\n(define tx (channels-sender ch))\n(define rx (channels-receiver ch))")
         L.append("""(define (worker id n)
@@ -100,8 +103,8 @@ def gen_program(r, workers, n, kind=None):
         L.append("""(define (worker id n)
   (let loop ((i 0) (keep (box (list id 0))))
     (if (< i n)
-        (begin (box-cycle 5) (when (= 0 (modulo i 7)) %s) (loop (+ i 1) (box (list id (+ 1 (car (cdr (unbox keep))))))))
-        (unbox keep))))""" % gc)
+        (begin (box-cycle 5) (when (= 0 (modulo i %d)) %s) (loop (+ i 1) (box (list id (+ 1 (car (cdr (unbox keep))))))))
+        (unbox keep))))""" % (every, gc))
         m = min(n, 40)
         L.append("(define threads (map (lambda (id) (spawn-native-thread (lambda () (worker id %d)))) (range 0 %d)))" % (m, workers))
         L.append("%s\n(verif-emit (map thread-join! threads))" % gc)
